@@ -119,6 +119,43 @@ def parseOptNat (s : String) : Option (Option Nat) :=
 def parseListWith (f : String → Option α) (s : String) : Option (List α) :=
   if s == "" then some [] else (s.splitOn ",").mapM f
 
+/-- C10: run the queue machine of EG.Pickle on an abstract heap given as text
+    (`;`-separated `id=a` (atom) | `id=t:k:b,b:` (tuple-like) | `id=n:k:b,b:a,a`).
+    `skel = false`: the event trace of the run (compared with the instrumented real pickler);
+    `skel = true`: the memo skeleton of the STREAM it writes — MEMOIZE / GET i / POP in order —
+    compared with the same skeleton of the bytes the real nrpickler produced (black-box). -/
+def pkAnswer (skel : Bool) (root heap : String) : Option String :=
+  let entries : Option (List (Nat × Pk.Node)) := (heap.splitOn ";").mapM fun e =>
+    match e.splitOn "=" with
+    | [i, d] => do
+      let i ← i.toNat?
+      if d == "a" then pure (i, Pk.Node.atom 0) else
+      match d.splitOn ":" with
+      | [t, k, bs, as] => do
+        let k ← k.toNat?
+        let bs ← parseListWith String.toNat? bs
+        let as ← parseListWith String.toNat? as
+        pure (i, Pk.Node.node (t == "t") k bs as)
+      | _ => none
+    | _ => none
+  match root.toNat?, entries with
+  | some root, some es =>
+    let H : Pk.Heap := fun o => match es.find? (·.1 == o) with | some (_, n) => n | none => .atom 0
+    let fuel := 4 * (es.foldl (fun a (_, n) => a + (match n with | .atom _ => 1 | .node _ _ b c => 4 + b.length + c.length)) 4) + 16
+    if skel then
+      match Pk.nrDump H (fuel * (es.length + 2)) root with
+      | none => some "err OutOfFuel"
+      | some (out, _) =>
+        let sk := out.filterMap fun op => match op with
+          | .memo => some "M" | .get i => some s!"G{i}" | .pop => some "P" | .discard _ _ => some "D" | _ => none
+        some ("ok " ++ ",".intercalate sk)
+    else
+      let tr := Pk.nrTrace H (fuel * (es.length + 2)) ⟨[.save root], [], []⟩
+      let showE : Pk.Event → String
+        | .expand o => s!"E{o}" | .atom o => s!"A{o}" | .hit o => s!"H{o}" | .memo o => s!"M{o}" | .popget _ => "P"
+      some ("ok " ++ ",".intercalate (tr.map showE))
+  | _, _ => none
+
 /-- `key=value` options after the positional tokens -/
 def optArg (toks : List String) (key : String) : String :=
   match toks.find? (fun t => t.startsWith (key ++ "=")) with
@@ -330,29 +367,9 @@ def step (st : DState) (line : String) : DState × String :=
     | _, _, _ => bad
   | "attr" :: _ => (st, "ok")      -- runtime attributes holding shared tuples / frozensets (C10): not part of the world
   | "pktrace" :: root :: heap :: _ =>
-    -- heap: `;`-separated `id=a` (atom) | `id=t:k:b,b:` (tuple-like) | `id=n:k:b,b:a,a`
-    let entries : Option (List (Nat × Pk.Node)) := (heap.splitOn ";").mapM fun e =>
-      match e.splitOn "=" with
-      | [i, d] => do
-        let i ← i.toNat?
-        if d == "a" then pure (i, Pk.Node.atom 0) else
-        match d.splitOn ":" with
-        | [t, k, bs, as] => do
-          let k ← k.toNat?
-          let bs ← parseListWith String.toNat? bs
-          let as ← parseListWith String.toNat? as
-          pure (i, Pk.Node.node (t == "t") k bs as)
-        | _ => none
-      | _ => none
-    match root.toNat?, entries with
-    | some root, some es =>
-      let H : Pk.Heap := fun o => match es.find? (·.1 == o) with | some (_, n) => n | none => .atom 0
-      let fuel := 4 * (es.foldl (fun a (_, n) => a + (match n with | .atom _ => 1 | .node _ _ b c => 4 + b.length + c.length)) 4) + 16
-      let tr := Pk.nrTrace H (fuel * (es.length + 2)) ⟨[.save root], [], []⟩
-      let showE : Pk.Event → String
-        | .expand o => s!"E{o}" | .atom o => s!"A{o}" | .hit o => s!"H{o}" | .memo o => s!"M{o}" | .popget _ => "P"
-      (st, "ok " ++ ",".intercalate (tr.map showE))
-    | _, _ => bad
+    match pkAnswer false root heap with | some a => (st, a) | none => bad
+  | "pkskel" :: root :: heap :: _ =>
+    match pkAnswer true root heap with | some a => (st, a) | none => bad
   | ["tsnew", c, a] =>
     match parseId 'C' c, parseId 'A' a with
     | some c, some a =>
